@@ -46,13 +46,22 @@ def invocation(draw):
     if mode in ("ids", "output"):
         n = 1 if mode == "output" else draw(st.integers(1, 4))
         for _ in range(n):
-            kind = draw(st.sampled_from(["valid", "valid", "valid", "plus", "unknown", "licenseref", "pathlike"]))
+            kind = draw(st.sampled_from(["valid", "valid", "valid", "plus", "unknown", "licenseref", "pathlike", "pathlike-ref", "toolong", "almost-ref"]))
             if kind == "valid":
                 ids.append(draw(st.sampled_from(VALID)))
             elif kind == "plus":
                 ids.append(draw(st.sampled_from(VALID)) + "+")
             elif kind == "unknown":
                 ids.append(draw(st.sampled_from(UNKNOWN)))
+            elif kind == "pathlike-ref":
+                # not an identifier at all, although its tail looks like a LicenseRef-: nothing may be created anywhere
+                ids.append(draw(st.sampled_from(["../LicenseRef-up", "src/LicenseRef-sub", "../../LicenseRef-out", "custom/LicenseRef-custom"])))
+            elif kind == "almost-ref":
+                # 'LicenseRef-' somewhere inside, not at the start: an ordinary (unknown) identifier that the server is asked for
+                ids.append(draw(st.sampled_from(["MyLicenseRef-x", "DocumentRef-vendor:LicenseRef-custom", "xLicenseRef-custom"])))
+            elif kind == "toolong":
+                # an identifier no file name can carry (File name too long): a failed download, nothing created
+                ids.append(draw(st.sampled_from(["a" * 300, "LicenseRef-" + "b" * 300])))
             elif kind == "pathlike":
                 # an argument with a path separator whose last component is a real identifier (the server would serve it)
                 ids.append(draw(st.sampled_from(["../text/", "text/", "sub/../", "../", "a/b/"])) + draw(st.sampled_from(VALID)))
@@ -214,6 +223,10 @@ def check(ctx, c):
                     continue
                 if "/" in stripped:
                     any_fail = True  # nothing may be created for a path-like argument
+                    continue
+                if len((stripped + ".txt").encode()) > 255 and (out_path is None or (stripped.startswith("LicenseRef-") and step["source"] == "dir")):
+                    any_fail = True  # no file name can carry it
+                    nontrivial = True
                     continue
                 if stripped.startswith("LicenseRef-"):
                     if step["source"] == "file":
